@@ -10,12 +10,23 @@ for l in open(sys.argv[1]):
         res.setdefault(parts[1], {})["confirmed"] = False
     if len(parts) >= 3 and parts[2] in ("CAUGHT", "MISSED"):
         res.setdefault(parts[0], {})["check"] = parts[2]
+def check_text(m, sid, verdict):
+    prev = m.get("confirmed_by_coordinator", {}).get("check", "")
+    if "but CAUGHT by ./check" in prev:
+        return prev
+    if verdict == "CAUGHT" and "MISSED" in prev:
+        return "tools/runseeded.py %s -> MISSED at first (./check %s --tier quick exited 0); after strengthening the machinery (see design/%s.md, section on seeded changes) -> CAUGHT" % (sid, m["property"], m["property"])
+    if verdict is None:
+        return prev
+    return "tools/runseeded.py %s -> %s (./check %s --tier quick)" % (sid, verdict, m["property"])
+
+
 for sid, r in res.items():
     p = "/verif/seeded/%s/meta.json" % sid
     m = json.load(open(p))
     m["confirmed_by_coordinator"] = {
         "cmd": "tools/confirmseeded.sh %s" % sid,
         "result": ("demo passes on clean tree; existing suite passes with patch; demo fails with patch" if r.get("confirmed") else m.get("confirmed_by_coordinator", {}).get("result", "NOT CONFIRMED")),
-        "check": "tools/runseeded.py %s -> %s (./check %s --tier quick)" % (sid, r.get("check"), m["property"])}
+        "check": check_text(m, sid, r.get("check"))}
     json.dump(m, open(p, "w"), indent=1)
     print(sid, r)
